@@ -28,7 +28,8 @@ DOCS = [
     [[[]]],
     {"a": True, "b": 1, "c": [1], "d": [True], "e": {"k": 0}, "f": {"k": False}},
     {"x": {"y": {"z": [1, 2]}}},
-    {"a": {"b": 1, "bc": {"d": 2}, "b/c": 3}, "ab": {"b": 4}, "xs": [0, {"k": 1}, 2, 3, 4, 5, 6, 7, 8, 9, {"k": 10}, {"1": 11}]},
+    {"a": {"b": 1, "bc": {"d": 2}}, "ab": {"b": 4}},
+    {"xs": [0, {"k": 1}, 2, 3, 4, 5, 6, 7, 8, 9, {"k": 10}]},
 ]
 
 
@@ -132,8 +133,9 @@ def run(tier, seed):
                 check(rec, [{"op": "replace", "path": p, "value": v}], d)
                 check(rec, [{"op": "test", "path": p, "value": v}], d)
             check(rec, [{"op": "remove", "path": p}], d)
-        some = paths if len(paths) < 25 or tier == "thorough" else rng.sample(paths, 25)
-        for a in some:
+        some = paths if len(paths) <= 45 or tier == "thorough" else rng.sample(paths, 30)
+        existing = [PU.spell(parts) for parts, _ in PU.locations(d)]
+        for a in (existing if len(existing) <= 45 else rng.sample(existing, 30)):
             for b in some:
                 check(rec, [{"op": "move", "from": a, "path": b}], d)
                 check(rec, [{"op": "copy", "from": a, "path": b}], d)
